@@ -243,6 +243,72 @@ def cli_leg(ck, tier, rnd, n=None):
             if not e['passed']:
                 ck.nontrivial(('cli', c['id'], js))
     ck.notes.append('CLI leg: %d policy audits through -P (text and JSON): exit status 0 <=> passed, 3 <=> failed' % len(results))
+    multi_target_leg(ck, cases, exp, rnd)
+
+
+def multi_target_leg(ck, cases, exp, rnd):
+    """One policy, several targets in one invocation (-T): each target's verdict and error list is its own
+    (a fresh evaluation per target - the error accumulator of the policy must not carry over)."""
+    from checks import multi
+    groups = []
+    for c in cases[:40]:
+        # the same policy against: its own peer, a peer violating the ciphers, a peer violating the MACs
+        q0 = c['peer']
+        q1 = dict(q0, enc=[x for x in REAL['enc'] if x not in c['policy']['enc']][:1] or ['aes128-cbc'])
+        q2 = dict(q0, mac=[x for x in REAL['mac'] if x not in c['policy']['mac']][:1] or ['hmac-sha1'])
+        groups.append((c['policy'], [q1, q0, q2, q0]))
+    sub = []
+    for gi, (pol, qs) in enumerate(groups):
+        for qi, q in enumerate(qs):
+            sub.append({'id': gi * 10 + qi, 'policy': pol, 'peer': q})
+    cfg = 'SPECIFICATION Spec\nCONSTANTS\n Mode = "oracle"\n MaxLen = 2\nINVARIANT Emit\n'
+    res = tlc.run('SshPolicy', cfg, generated={'cases.json': json.dumps(sub)}, env={'VERIF_CASES': 'cases.json'}, workers=1)
+    ck.add_tlc(res)
+    common.require(res.ok, 'SshPolicy (multi-target oracle): %s' % res.error_text)
+    e2 = {p['id']: p for p in res.prints if isinstance(p, dict) and 'errors' in p}
+    scs, meta = [], []
+    for gi, (pol, qs) in enumerate(groups):
+        tg = []
+        for q in qs:
+            hk = {t: rating.hostkey_blob(t, (v['size'], v['catype'], v['casize'])) for t, v in q['hks'].items()}
+            tg.append(('server', peers.ServerCfg(banner=banner_text(q['banner']).encode(), kexinit={'kex': q['kex'], 'key': q['key'], 'enc': q['enc'], 'mac': q['mac'],
+                                                                                             'comp': q['comp']}, hostkeys=hk)))
+        for threads in (1, 2):
+            sc, labels = multi.scenario(tg, threads, tuple(range(len(tg))) if threads == 1 else None, json_out=True, extra=['-P', '{tmp}/policy.txt'])
+            sc['files']['policy.txt'] = policy_text(pol)
+            scs.append(sc)
+            meta.append((gi, labels, threads))
+    for (gi, labels, threads), sc, r in zip(meta, scs, runner.run_many(scs)):
+        ck.evaluated()
+        if r.get('harness_error') or r.get('hang'):
+            raise common.Machinery('multi-target policy run failed: %r' % (r.get('harness_error') or 'hang'))
+        replay = {'policy_text': sc['files']['policy.txt'], 'argv': sc['argv'], 'exit': r['exit'], 'stdout': r['stdout'][-3000:]}
+        try:
+            doc = json.loads(r['stdout'])
+        except ValueError:
+            ck.violation('multi-target-policy-json-unparsable', 'stdout of a -T -P -j run is not JSON', replay)
+            continue
+        bad = False
+        for el in doc:
+            lab = '%s:%s' % (el.get('host'), el.get('port'))
+            if lab not in labels:
+                continue
+            want = e2[gi * 10 + labels.index(lab)]
+            got = sorted({x['mismatched_field'] for x in el.get('errors', [])})
+            if el.get('passed') != want['passed'] or got != sorted(want['errors']) or (el.get('passed') and el.get('errors')):
+                ck.violation('multi-target-policy-verdict threads=%d' % threads,
+                             'target %s in a -T policy run: passed=%r errors=%r; evaluated on its own the rule gives passed=%r errors=%r'
+                             % (lab, el.get('passed'), got, want['passed'], sorted(want['errors'])), replay)
+                bad = True
+                break
+        want_exit = 0 if all(e2[gi * 10 + i]['passed'] for i in range(4)) else 3
+        if not bad and r['exit'] != want_exit:
+            ck.violation('multi-target-policy-exit', 'exit status %r, expected %r' % (r['exit'], want_exit), replay)
+            bad = True
+        if not bad:
+            ck.cov['traces_validated_against_impl'] += 1
+            ck.nontrivial(('multi-policy', gi, threads))
+    ck.notes.append('multi-target policy leg: %d -T -P runs, each target compared with its own verdict' % len(scs))
 
 
 def c02_leg(ck, tier):
